@@ -50,11 +50,48 @@ pub fn check(r: &RunResult, rep: &mut Report) {
 		}
 	}
 	// ---- the error run ----
-	let faults: Vec<_> = w.plan.faults.iter().filter(|f| f.site == "net").collect();
-	if faults.len() != 1 || w.plan.config.certificates.len() != 1 {
+	let mut faults: Vec<_> = w.plan.faults.iter().filter(|f| f.site == "net").collect();
+	if faults.is_empty() || w.plan.config.certificates.len() != 1 {
 		return;
 	}
-	let f = faults[0];
+	// One error run may be scripted as several contiguous segments on the same request (family F2m:
+	// recoverable errors of different types): it is judged as one run if every segment is a
+	// recoverable ACME error; other combinations are not judged here.
+	faults.sort_by_key(|f| f.nth);
+	let merged;
+	let mut mixed_cause: Option<String> = None;
+	let f = if faults.len() == 1 {
+		faults[0]
+	} else {
+		let same_place = faults.iter().all(|x| x.ca == faults[0].ca && x.class == faults[0].class && x.cert == faults[0].cert);
+		let mut next = faults[0].nth.max(1);
+		let mut contiguous = true;
+		for x in faults.iter() {
+			if x.nth.max(1) != next {
+				contiguous = false;
+			}
+			next = x.nth.max(1) + x.count.max(1);
+		}
+		let all_recoverable = faults.iter().all(|x| matches!(&x.kind, FaultKind::Acme { typ, .. } if RECOVERABLE.contains(&typ.as_str())));
+		if !same_place || !contiguous || !all_recoverable {
+			return;
+		}
+		let mut types: Vec<String> = vec![];
+		for x in faults.iter() {
+			if let FaultKind::Acme { typ, .. } = &x.kind {
+				if !types.contains(typ) {
+					types.push(typ.clone());
+				}
+			}
+		}
+		let mut m = faults[0].clone();
+		m.count = faults.iter().map(|x| x.count.max(1)).sum();
+		// every segment is recoverable: the first type stands for the class of the run, the cause names all
+		mixed_cause = Some(types.join("+"));
+		merged = m;
+		rep.probe("c08.mixed_recoverable_runs", 1);
+		&merged
+	};
 	let (typ, has_problem_doc) = match &f.kind {
 		FaultKind::Acme { typ, .. } => (typ.clone(), true),
 		FaultKind::Http { .. } => (String::new(), false),
@@ -82,6 +119,7 @@ pub fn check(r: &RunResult, rep: &mut Report) {
 	} else {
 		typ.clone()
 	};
+	let cause = mixed_cause.unwrap_or(cause);
 	// the attempt the affected request belongs to
 	let seq0 = sendseq.get(&p0.tx).copied().unwrap_or(0);
 	let att = match common::attempt_at(&atts, seq0, None) {
